@@ -180,6 +180,10 @@ impl Runtime {
             self.program.clear();
             self.program.codegen(self.listing.lines());
             self.dirty = false;
+            // addresses held by the previous compile are meaningless now
+            self.stack.clear();
+            self.functions.clear();
+            self.cont = State::Stopped;
         }
         self.program.codegen(&line);
         let (pc, indirect_errors, direct_errors) = self.program.link();
@@ -194,7 +198,9 @@ impl Runtime {
     fn enter_indirect(&mut self, line: Line) {
         self.cont = State::Stopped;
         if line.is_empty() {
-            self.dirty = self.listing.remove(line.number()).is_some();
+            if self.listing.remove(line.number()).is_some() {
+                self.dirty = true;
+            }
         } else {
             self.listing.insert(line);
             self.dirty = true;
@@ -893,6 +899,7 @@ impl Runtime {
         let old_start = u16::try_from(self.stack.pop()?)?;
         let new_start = u16::try_from(self.stack.pop()?)?;
         self.listing.renum(new_start, old_start, step)?;
+        self.dirty = true;
 
         self.state = State::Stopped;
         Ok(self.r#end())
